@@ -210,6 +210,27 @@ func (ex *Exec) runePred(r *Term, tab *unicode.RangeTable, native func(rune) boo
 	if r.IsConst() {
 		return ex.ts.Bool(native(rune(int32(r.C))))
 	}
+	ts := ex.ts
+	if ex.Branch(ts.BVCmp(OpULt, r, ts.BVConst(0x80, 32))) {
+		// ASCII: exact predicate as a disjunction of ranges computed from the real function
+		res := ts.False
+		for lo := 0; lo < 128; lo++ {
+			if !native(rune(lo)) {
+				continue
+			}
+			hi := lo
+			for hi+1 < 128 && native(rune(hi+1)) {
+				hi++
+			}
+			if lo == hi {
+				res = ts.Or(res, ts.Eq(r, ts.BVConst(uint64(lo), 32)))
+			} else {
+				res = ts.Or(res, ts.And(ts.BVCmp(OpULe, ts.BVConst(uint64(lo), 32), r), ts.BVCmp(OpULe, r, ts.BVConst(uint64(hi), 32))))
+			}
+			lo = hi
+		}
+		return res
+	}
 	return ex.runeInTable(r, tab)
 }
 
